@@ -66,6 +66,30 @@
 (* rejects the unnamed key: copy() RAISES for such a dictionary (must      *)
 (* violate CopyEqual).                                                     *)
 (*                                                                         *)
+(* LAZY SLOTS and READ-ONLY OBSERVATIONS.  Every dictionary slot of a CIM   *)
+(* object (keybindings, properties, qualifiers, methods, parameters,       *)
+(* scopes) is lazily initialised in the code: the private slot holds None  *)
+(* until the public getter is called for the first time, which stores an   *)
+(* empty NocaseDict there.  A dictionary cell of kind "lazy" is such a     *)
+(* slot that nobody has read yet (always without kids, val "empty"); it is *)
+(* the state in which the constructor, deepcopy and pickle leave every     *)
+(* EMPTY dictionary slot.  AbsState does not see the difference (no public *)
+(* attribute differs).  Action                                             *)
+(*   HObs(p, o)    a read-only observation of the cell reached along p,    *)
+(*                 o in CimEq!ObsActs: "read" (getters: materialises the   *)
+(*                 lazy slots of that object), "render" (repr / tocimxml / *)
+(*                 tomof: everything below), "compare" (==: everything     *)
+(*                 below), "dup" (copy() reads the object's own getters)   *)
+(* changes nothing but lazy -> materialised.  Invariant ObsReadOnly: after *)
+(* observations and hash() calls only, the abstract state is the initial   *)
+(* one.  HashLawful compares the reported hash with that of a FRESH equal  *)
+(* object = the same graph with every empty dictionary slot still lazy and *)
+(* no cache (FreshOf).  Switch LazyHash: "getter" (the code: __hash__      *)
+(* reads the public attributes, so it sees an empty dictionary either way  *)
+(* and materialises the slots), "raw" (__hash__ reads the private slot     *)
+(* \"to avoid creating the dictionary\": None before, empty dictionary      *)
+(* after the first observation) - must violate HashLawful.                 *)
+(*                                                                         *)
 (* Regression switches (must violate Independence):                        *)
 (*   ShallowChildDict  .copy() passes the child dictionaries through       *)
 (*   SharedPath        CIMInstance.copy() assigns the path without copying *)
@@ -79,15 +103,19 @@ CONSTANTS MaxRef, MaxMut, Roots, ShallowChildDict, SharedPath,
           EmptyListPassThrough, Emit,
           Mode,          \* "copy" | "hist"
           HashCache,     \* "none" | "subset" | "all"
-          CopyViaCtor    \* BOOLEAN
+          CopyViaCtor,   \* BOOLEAN
+          LazyHash,      \* "getter" | "raw"
+          ObsKinds,      \* enabled observation classes (subset of ObsActs)
+          EmitLazy       \* BOOLEAN: emission criterion, see EmitBeh
 
 VARIABLES heap, orig, cpy, abs0, hist, allmust
 vars == <<heap, orig, cpy, abs0, hist, allmust>>
 
 (* hc: the cached hash of a dictionary cell, <<>> = none, <<value>> *)
 Free == [t |-> "free", kind |-> "", val |-> "", kids |-> <<>>, hc |-> <<>>]
-Cell(t, kind) == [t |-> t, kind |-> kind, val |-> "v0", kids |-> <<>>,
-                  hc |-> <<>>]
+Cell(t, kind) == [t |-> t, kind |-> kind,
+                  val |-> IF kind = "lazy" THEN "empty" ELSE "v0",
+                  kids |-> <<>>, hc |-> <<>>]
 Raised == MaxRef + 1     \* "reference" returned by a copy that raised
 NextFree(h) == CHOOSE r \in 1..MaxRef : h[r].t = "free" /\ \A q \in 1..(r - 1) : h[q].t # "free"
 
@@ -96,7 +124,8 @@ T(t, kind, kids) == [t |-> t, kind |-> kind, kids |-> kids]
 K(key, sub) == [key |-> key, sub |-> sub]
 tQual == T("O", "Qualifier", <<K("value", T("L", "", <<>>))>>)
 tQuals == T("D", "", <<K("#k", tQual)>>)
-tEmb == T("O", "Instance", <<K("props", T("D", "", <<>>))>>)
+tLazy == T("D", "lazy", <<>>)    \* an empty dictionary slot nobody has read
+tEmb == T("O", "Instance", <<K("props", tLazy), K("quals", tLazy)>>)
 tRef == T("O", "InstanceName", <<K("kb", T("D", "", <<>>))>>)
 tIName == T("O", "InstanceName", <<K("kb", T("D", "", <<K("#k", tRef)>>))>>)
 tCName == T("O", "ClassName", <<>>)
@@ -133,6 +162,17 @@ tParmE == T("O", "Parameter", <<K("value", tEmptyL), K("quals", tQuals)>>)
 tQDeclE == T("O", "QualifierDeclaration",
              <<K("value", tEmptyL), K("scopes", T("D", "", <<>>))>>)
 
+(* objects all of whose dictionary slots are empty (and still lazy) *)
+tClassBare == T("O", "Class", <<K("props", tLazy), K("meths", tLazy),
+                                 K("quals", tLazy)>>)
+tINameBare == T("O", "InstanceName", <<K("kb", tLazy)>>)
+tPropBare == T("O", "Property", <<K("quals", tLazy)>>)
+tParmBare == T("O", "Parameter", <<K("quals", tLazy)>>)
+tMethBare == T("O", "Method", <<K("params", tLazy), K("quals", tLazy)>>)
+tQDeclBare == T("O", "QualifierDeclaration", <<K("scopes", tLazy)>>)
+tInstPath == T("O", "Instance", <<K("path", tINameBare), K("props", tLazy),
+                                   K("quals", tLazy)>>)
+
 RootTree(r) ==
   CASE r = "InstanceName" -> tIName
     [] r = "ClassName" -> tCName
@@ -153,11 +193,22 @@ RootTree(r) ==
     [] r = "NocaseDictUnnamed" -> tDictU
     [] r = "InstanceNameUnnamed" -> tINameU
     [] r = "InstanceUnnamed" -> tInstU
+    [] r = "InstanceBare" -> tEmb
+    [] r = "InstancePathBare" -> tInstPath
+    [] r = "ClassBare" -> tClassBare
+    [] r = "InstanceNameBare" -> tINameBare
+    [] r = "PropertyBare" -> tPropBare
+    [] r = "ParameterBare" -> tParmBare
+    [] r = "MethodBare" -> tMethBare
+    [] r = "QualifierDeclarationBare" -> tQDeclBare
 AllRoots == {"InstanceName", "ClassName", "Instance", "Class", "Property",
              "PropertyObj", "PropertyRef", "Method", "Parameter", "Qualifier",
              "QualifierDeclaration", "NocaseDict", "PropertyEmpty",
              "ParameterEmpty", "QualifierEmpty", "QualifierDeclarationEmpty",
-             "NocaseDictUnnamed", "InstanceNameUnnamed", "InstanceUnnamed"}
+             "NocaseDictUnnamed", "InstanceNameUnnamed", "InstanceUnnamed",
+             "InstanceBare", "InstancePathBare", "ClassBare",
+             "InstanceNameBare", "PropertyBare", "ParameterBare", "MethodBare",
+             "QualifierDeclarationBare"}
 
 RECURSIVE Load(_, _), LoadKids(_, _, _, _)
 Load(h, tr) ==      \* <<heap, ref>>
@@ -222,8 +273,9 @@ CopyBy(m, h, r) ==
 
 (* ---- abstract state, paths ---- *)
 RECURSIVE AbsState(_, _)
+NormKind(k) == IF k = "lazy" THEN "" ELSE k   \* no public attribute differs
 AbsState(h, r) ==
-  [t |-> h[r].t, kind |-> h[r].kind, val |-> h[r].val,
+  [t |-> h[r].t, kind |-> NormKind(h[r].kind), val |-> h[r].val,
    kids |-> [i \in 1..Len(h[r].kids) |->
                [key |-> h[r].kids[i].key, sub |-> AbsState(h, h[r].kids[i].ref)]]]
 
@@ -249,6 +301,13 @@ RootKind(r) ==
     [] r = "NocaseDictUnnamed" -> "NocaseDict"
     [] r = "InstanceNameUnnamed" -> "InstanceName"
     [] r = "InstanceUnnamed" -> "Instance"
+    [] r \in {"InstanceBare", "InstancePathBare"} -> "Instance"
+    [] r = "ClassBare" -> "Class"
+    [] r = "InstanceNameBare" -> "InstanceName"
+    [] r = "PropertyBare" -> "Property"
+    [] r = "ParameterBare" -> "Parameter"
+    [] r = "MethodBare" -> "Method"
+    [] r = "QualifierDeclarationBare" -> "QualifierDeclaration"
     [] OTHER -> r
 
 Empty == [r \in 1..MaxRef |-> Free]
@@ -301,8 +360,10 @@ DropsCache(mu) ==
 (* content and the hashes the kids report; same shape as AbsState          *)
 RECURSIVE ImplH(_, _)
 ImplH(h, r) ==
-  IF h[r].t = "D" /\ h[r].hc # <<>> THEN h[r].hc[1]
-  ELSE [t |-> h[r].t, kind |-> h[r].kind, val |-> h[r].val,
+  IF h[r].t = "D" /\ h[r].kind = "lazy" /\ LazyHash = "raw"
+  THEN [t |-> "None", kind |-> "", val |-> "", kids |-> <<>>]  \* the raw slot
+  ELSE IF h[r].t = "D" /\ h[r].hc # <<>> THEN h[r].hc[1]
+  ELSE [t |-> h[r].t, kind |-> NormKind(h[r].kind), val |-> h[r].val,
         kids |-> [i \in 1..Len(h[r].kids) |->
                     [key |-> h[r].kids[i].key,
                      sub |-> ImplH(h, h[r].kids[i].ref)]]]
@@ -311,12 +372,47 @@ RECURSIVE Reach(_, _)
 Reach(h, r) == {r} \cup UNION { Reach(h, h[r].kids[i].ref)
                                  : i \in 1..Len(h[r].kids) }
 (* hash(r) visits every cell below r; a caching dictionary stores its value *)
+(* reading a lazy slot through its getter stores an empty dictionary there *)
+Materialise(h, S) ==
+  [q \in DOMAIN h |-> IF q \in S /\ h[q].t = "D" /\ h[q].kind = "lazy"
+                      THEN [h[q] EXCEPT !.kind = ""] ELSE h[q]]
+DirectKids(h, r) == { h[r].kids[i].ref : i \in 1..Len(h[r].kids) }
+(* hash(r): the cell r itself has been reached through the getters; the    *)
+(* code-shaped __hash__ reads every slot below through the getter too      *)
+(* ("getter"), the variant "raw" looks at the private slots only           *)
 Populate(h, r) ==
-  IF HashCache = "none" THEN h
-  ELSE LET rs == Reach(h, r) IN
-       [q \in DOMAIN h |->
-          IF q \in rs /\ h[q].t = "D" /\ h[q].hc = <<>>
-          THEN [h[q] EXCEPT !.hc = <<ImplH(h, q)>>] ELSE h[q]]
+  LET h0 == Materialise(h, IF LazyHash = "raw" THEN {r} ELSE Reach(h, r)) IN
+  IF HashCache = "none" THEN h0
+  ELSE LET rs == Reach(h0, r) IN
+       [q \in DOMAIN h0 |->
+          IF q \in rs /\ h0[q].t = "D" /\ h0[q].hc = <<>> /\ h0[q].kind # "lazy"
+          THEN [h0[q] EXCEPT !.hc = <<ImplH(h0, q)>>] ELSE h0[q]]
+
+(* the freshly built equal object: every EMPTY dictionary slot is still    *)
+(* lazy (constructor, deepcopy and pickle leave it so), nothing is cached  *)
+IsEmptySlotDict(c) == c.t = "D" /\ c.kids = <<>> /\ c.val = "empty"
+                      /\ c.kind \in {"", "lazy"}
+FreshOf(h) ==
+  [q \in DOMAIN h |->
+     IF IsEmptySlotDict(h[q]) THEN [h[q] EXCEPT !.kind = "lazy", !.hc = <<>>]
+     ELSE IF h[q].t = "free" THEN h[q] ELSE [h[q] EXCEPT !.hc = <<>>]]
+FreshHash(h, r) == ImplH(FreshOf(h), r)
+
+NoObs == {}
+(* the two classes of EFFECT an observation has in this model ("compare"   *)
+(* touches what "render" touches, "dup" what "read" touches): enough for   *)
+(* the exhaustive check; emission uses all of ObsActs                      *)
+ObsEffects == {"read", "render"}
+Touched(h, c, o) == IF o \in {"render", "compare"} THEN Reach(h, c)
+                    ELSE {c} \cup DirectKids(h, c)
+HObs(p, o) ==
+  /\ Mode = "hist" /\ Len(hist.muts) < MaxMut
+  /\ LET c == Follow(heap, orig, p) IN
+     /\ heap[c].t \in {"O", "D"}
+     /\ heap' = Materialise(heap, Touched(heap, c, o))
+     /\ hist' = [hist EXCEPT !.muts = Append(@, [steps |-> StepsOf(heap, orig, p),
+                                               v |-> o, key |-> ""])]
+  /\ UNCHANGED <<orig, cpy, abs0, allmust>>
 
 HHash(p) ==
   /\ Mode = "hist" /\ Len(hist.muts) < MaxMut
@@ -344,7 +440,7 @@ HMut(p, mu) ==
                        IF nokid THEN [cell EXCEPT !.val = tok]
                        ELSE [cell EXCEPT !.kids = SubSeq(@, 1, Len(@) - 1)]
                   [] mu = "clear" ->
-                       [cell EXCEPT !.kids = <<>>, !.val = "clear"]
+                       [cell EXCEPT !.kids = <<>>, !.val = "empty"]
            ELSE IF mu = "set" THEN [cell EXCEPT !.val = tok]
            ELSE [cell EXCEPT !.kids = Tail(@)]
          key == IF nokid \/ mu \in {"setitem", "update", "setdefault", "clear",
@@ -355,8 +451,9 @@ HMut(p, mu) ==
         ELSE /\ mu \in {"set", "drop"}
              /\ mu = "drop" => ~nokid
      /\ heap' = [heap EXCEPT ![c] =
+                   LET new1 == [new EXCEPT !.kind = NormKind(@)] IN
                    IF cell.t = "D" /\ DropsCache(mu)
-                   THEN [new EXCEPT !.hc = <<>>] ELSE new]
+                   THEN [new1 EXCEPT !.hc = <<>>] ELSE new1]
      /\ hist' = [hist EXCEPT !.muts = Append(@, [steps |-> StepsOf(heap, orig, p),
                                                v |-> mu, key |-> key])]
   /\ UNCHANGED <<orig, cpy, abs0, allmust>>
@@ -368,13 +465,22 @@ Next ==
   \/ /\ Mode = "hist"
      /\ \E p \in Paths(heap, orig, 6) :
           \/ HHash(p)
+          \/ \E o \in ObsKinds : HObs(p, o)
           \/ \E mu \in DictMutators \cup {"set", "drop"} : HMut(p, mu)
 
 Spec == Init /\ [][Next]_vars
 
 (* a == b => hash(a) == hash(b), b a freshly built object equal to the     *)
 (* current state of the root (no history: its hash is computed)            *)
-HashLawful == Mode = "hist" => ImplH(heap, orig) = AbsState(heap, orig)
+HashLawful == Mode = "hist" => ImplH(heap, orig) = FreshHash(heap, orig)
+(* the reference value is the hash of the abstract state (nothing else) *)
+FreshHashIsAbs == (Mode = "hist" /\ LazyHash = "getter") =>
+                    FreshHash(heap, orig) = AbsState(heap, orig)
+(* observations (and hash() calls) change no public attribute *)
+ObsReadOnly ==
+  (Mode = "hist" /\ \A i \in 1..Len(hist.muts) :
+                      hist.muts[i].v \in ObsActs \cup {"hash"}) =>
+     AbsState(heap, orig) = abs0
 
 CopyEqual == (cpy # 0 /\ hist.muts = <<>>) =>
                (cpy # Raised /\ AbsState(heap, cpy) = abs0)
@@ -389,8 +495,16 @@ Tight == (Mode = "copy" /\ Len(hist.muts) = 1 /\ ~allmust) =>
 (* before the change).  CacheOnlyAfterHash: in every variant no cache      *)
 (* exists before the first hash(), so the other histories cannot tell a    *)
 (* caching implementation from the computing one.                          *)
-Stale == ImplH(heap, orig) # AbsState(heap, orig)
-EmitBeh == (Emit /\ Len(hist.muts) >= 1 /\ (Mode = "hist" => Stale)) =>
+Stale == ImplH(heap, orig) # FreshHash(heap, orig)
+(* EmitLazy (run with LazyHash = "raw", the variant in which every lazy    *)
+(* slot is hashed raw): exactly the histories made of hash() calls and at  *)
+(* most ONE observation or clear() after which THAT variant is stale, i.e. *)
+(* on which reading the private slot can be told from reading the getter   *)
+LazyShape ==
+  /\ \A i \in 1..Len(hist.muts) : hist.muts[i].v \in ObsActs \cup {"hash", "clear"}
+  /\ Cardinality({i \in 1..Len(hist.muts) : hist.muts[i].v # "hash"}) = 1
+EmitBeh == (Emit /\ Len(hist.muts) >= 1 /\ (Mode = "hist" => Stale)
+            /\ (EmitLazy => LazyShape)) =>
              PrintT(<<"BEH", hist>>)
 CacheOnlyAfterHash ==
   (\A i \in 1..Len(hist.muts) : hist.muts[i].v # "hash") =>
